@@ -74,8 +74,19 @@ def split_assign(s):
     out = []
     # chained
     if len(s.targets) > 1:
-        for t in s.targets:
-            out.append(ast.copy_location(ast.Assign(targets=[t], value=s.value, lineno=s.lineno), s))
+        first = s.targets[0]
+        shared = not isinstance(s.value, (ast.Constant, ast.Name)) and isinstance(first, (ast.Name, ast.Attribute)) and \
+            not (isinstance(s.value, ast.UnaryOp) and isinstance(s.value.operand, ast.Constant))
+        for k, t in enumerate(s.targets):
+            if shared and k > 0:
+                # a = b = <object>: one object, bound to both names (the value is evaluated once)
+                src = copy.deepcopy(first)
+                for x in ast.walk(src):
+                    if hasattr(x, "ctx"):
+                        x.ctx = ast.Load()
+                out.append(ast.copy_location(ast.Assign(targets=[t], value=src, lineno=s.lineno), s))
+            else:
+                out.append(ast.copy_location(ast.Assign(targets=[t], value=s.value, lineno=s.lineno), s))
         res = []
         for x in out:
             res.extend(split_assign(x))
@@ -324,6 +335,10 @@ def norm_table_loops(stmts):
             continue
         names = [e.id for e in s.target.elts]
         if _has_loop_exit(s.body) or any(_assigns(s.body, n) for n in names) or any(_loads_after(out[j:], n) for n in names):
+            continue
+        # a function created in the body reads the loop variables when it is *called* (late binding): substituting the
+        # row's entries into it would change what the program does
+        if any(isinstance(f_, (ast.Lambda, ast.FunctionDef)) and any(isinstance(x, ast.Name) and x.id in names for x in ast.walk(f_)) for b_ in s.body for f_ in ast.walk(b_)):
             continue
         unrolled = []
         for r in rows:
@@ -943,13 +958,30 @@ class Inliner:
         used_names = {n.id for n in ast.walk(fdef) if isinstance(n, ast.Name)}
         for blk in _blocks_all(fdef):
             for st in list(blk):
-                if not (isinstance(st, ast.For) and not st.orelse and isinstance(st.iter, ast.Call) and isinstance(st.iter.func, ast.Name)):
+                if not (isinstance(st, ast.For) and not st.orelse and isinstance(st.iter, ast.Call)):
                     continue
-                gname = st.iter.func.id
-                gdef = self.funcs.get(gname)
-                if gdef is None or not gname.startswith("_") or gdef.decorator_list or gdef.args.vararg or gdef.args.kwarg:
+                recv = None
+                if isinstance(st.iter.func, ast.Name):
+                    gname = st.iter.func.id
+                    gdef = self.funcs.get(gname)
+                elif isinstance(st.iter.func, ast.Attribute) and isinstance(st.iter.func.value, ast.Name) and st.iter.func.value.id == "self" and cls_name:
+                    gname = st.iter.func.attr
+                    gdef, work, seen_ = None, [cls_name], set()
+                    while work and gdef is None:
+                        c_ = work.pop(0)
+                        if c_ in seen_:
+                            continue
+                        seen_.add(c_)
+                        gdef = self.methods.get((c_, gname))
+                        work.extend(self.bases.get(c_, []))
+                    recv = "self"
+                else:
                     continue
-                rep = self._inline_generator(st, gdef, used_names)
+                if gdef is None or not gname.startswith("_") or gname.startswith("__") or gdef.decorator_list or gdef.args.vararg or gdef.args.kwarg:
+                    continue
+                if not any(isinstance(x, (ast.Yield, ast.YieldFrom)) for x in ast.walk(gdef)):
+                    continue
+                rep = self._inline_generator(st, gdef, used_names, recv)
                 if rep is not None:
                     k = blk.index(st)
                     blk[k:k + 1] = rep
@@ -1011,8 +1043,32 @@ class Inliner:
 
             P().visit(fdef)
 
-    def _inline_generator(self, loop, gdef, used_names):
+    def _inline_generator(self, loop, gdef, used_names, recv=None):
         gbody = [x for x in gdef.body if not (isinstance(x, ast.Expr) and isinstance(x.value, ast.Constant))]
+        if gbody and isinstance(gbody[-1], ast.Expr) and isinstance(gbody[-1].value, ast.YieldFrom) \
+                and not any(isinstance(x, (ast.Yield, ast.YieldFrom, ast.Return, ast.Await)) for p_ in gbody[:-1] for x in ast.walk(p_)):
+            # `…; yield from E`  ≡  `…; for <fresh> in E: yield <fresh>`
+            gdef = copy.deepcopy(gdef)
+            gb2 = [x for x in gdef.body if not (isinstance(x, ast.Expr) and isinstance(x.value, ast.Constant))]
+            yf = gb2[-1]
+            tgt_ = copy.deepcopy(loop.target)
+            tnames_ = [x.id for x in ast.walk(tgt_) if isinstance(x, ast.Name)]
+            glocals_ = _locals_of(gdef)
+            if all(isinstance(x, (ast.Name, ast.Tuple)) for x in ast.walk(tgt_) if not isinstance(x, ast.expr_context)) and not (set(tnames_) & glocals_):
+                # the consumer's own loop variables stand for the delegated items
+                val_ = copy.deepcopy(tgt_)
+                for x in ast.walk(val_):
+                    if hasattr(x, "ctx"):
+                        x.ctx = ast.Load()
+            else:
+                self.counter += 1
+                tgt_ = ast.Name(id=f"_y{self.counter}", ctx=ast.Store())
+                val_ = ast.Name(id=tgt_.id, ctx=ast.Load())
+            lp_ = ast.For(target=tgt_, iter=yf.value.value, body=[ast.Expr(value=ast.Yield(value=val_))], orelse=[])
+            ast.copy_location(lp_, yf)
+            ast.fix_missing_locations(lp_)
+            gdef.body = gb2[:-1] + [lp_]
+            gbody = gdef.body
         if not gbody or not isinstance(gbody[-1], (ast.While, ast.For)) or gbody[-1].orelse:
             return None
         pre, L = gbody[:-1], gbody[-1]
@@ -1070,9 +1126,13 @@ class Inliner:
         params = [a.arg for a in gdef.args.posonlyargs + gdef.args.args]
         kwonly = [a.arg for a in gdef.args.kwonlyargs]
         bind = {}
-        if len(call.args) > len(params):
+        pos_params = list(params)
+        if recv is not None and pos_params:
+            bind[pos_params[0]] = ast.Name(id=recv, ctx=ast.Load())
+            pos_params = pos_params[1:]
+        if len(call.args) > len(pos_params):
             return None
-        for p_, a in zip(params, call.args):
+        for p_, a in zip(pos_params, call.args):
             bind[p_] = a
         for k in call.keywords:
             if k.arg in bind or k.arg not in params + kwonly:
